@@ -135,10 +135,21 @@ def tipQuorum (n : Node) : Bool :=
       if sg.flag = .commit && sigOK v.key (signBytes c sg) sg.sig then (v.power : Int) else 0).sum
     c.sigs.length = vs.length && decide (3 * got > 2 * totalPower vs)
 
+/-- is every non-absent entry of that seen commit a verifying signature with the address of the
+validator at its index (of `LastValidators`)? -/
+def tipClean (n : Node) : Bool :=
+  match n.store.find? (fun e => e.1.height = n.st.lastHeight) with
+  | none => false
+  | some (_, c) =>
+    let vs := n.st.lastVals
+    c.sigs.length = vs.length &&
+      (vs.zip c.sigs).all fun (v, sg) =>
+        sg.flag = .absent || (sg.addr = v.addr && sigOK v.key (signBytes c sg) sg.sig)
+
 def showPanic (n : Node) (h : Handover) : String :=
   match h with
   | .notCaughtUp | .ok => showHandover h
-  | _ => showHandover h ++ s!" tipq={tipQuorum n}"
+  | _ => showHandover h ++ s!" tipq={tipQuorum n} tipclean={tipClean n}"
 
 def getNat (toks : List String) (k : String) : Option Nat := (kv toks k).bind String.toNat?
 def getInt (toks : List String) (k : String) : Option Int := (kv toks k).bind String.toInt?
